@@ -217,6 +217,23 @@ CLAIMED["C13"] = {
     "design": "DESIGN.md section 4 C13",
 }
 
+CLAIMED["C17"] = {
+    "text": "PARTIAL (Python's csv module and float<->text conversion are oracles). Rocq theorems about a Gallina model of the CSV "
+            "EEMSRead/EEMSWrite logic over rows as csv.reader delivers them: the values read are those of the chosen column in row "
+            "order with blank lines skipped, one cell per data row, of the requested element type; they depend on that column "
+            "only (tables agreeing on it read alike); exactly the cells equal to the declared missing value are missing; a missing "
+            "header and a non-numeric cell are reported, the latter with its file line (header = line 1) and only after all earlier "
+            "rows were fine; writing yields the header of result names in the listed order and one row per cell; for any reader "
+            "that inverts the writer's number formatting (hypothesis H_repr, named in the theorem) a written column without "
+            "missing cells reads back as exactly the values written, whatever the other columns hold (C17_roundtrip_partial). The "
+            "full round trip is refuted by a kernel-checked witness (C17_roundtrip_refuted): a missing cell is written as '--' "
+            "and the column cannot be read back - recorded known finding.",
+    "note": "Trusted: csv.reader/csv.writer, float(text), str(float) (bit-identity of the round trip is observed on random bit "
+            "patterns, subnormals, extremes, -0.0, not proved); integer conversion is C truncation; 1-D arrays.",
+    "technique": "Rocq proof over a model with named oracles + refutation witness + differential correspondence on files",
+    "design": "DESIGN.md section 4 C17",
+}
+
 NOT_YET = "check not built yet (planned with the same technique, see DESIGN.md section 4); not claimed in this commit"
 
 
